@@ -14,7 +14,7 @@ THEOREMS = [P + n for n in ("C25_preimage_add", "C25_pair_exact", "C25_lone_boun
            [L + n for n in ("Win_preimage_add", "Win_rot", "cd_rot", "add_ule_pair", "add_uge_pair", "balAddPair_exact")] + \
            [P + n for n in ("C25_align_sound", "C25_step_holds", "C25_add_rot", "C25_sub_rot", "C25_balance_holds", "C25_balance_rot",
                             "C25_handle_sound", "C25_balancer_sound", "C25_pair_sound", "C25_balancer_sound_pair", "C25_unsat_sound",
-                            "C25_replacement_interval", "C25_mixed_path_cuts_off_model")]
+                            "C25_replacement_interval", "C25_mixed_path_cuts_off_model", "C25_handle_signed_char", "C25_pair_sound_signed", "C25_balancer_sound_signed", "C25_unsat_sound_signed", "C25_unsat_sound_eqne_partial", "C25_balancer_sound_nolit", "C25_balancer_sound_pair_nolit", "C25_balancer_sound_signed_nolit", "C25_step_signed_zext", "C25_step_signed_concat", "C25_handle_sound_signed_unsigned_reading", "C25_zext_signed_not_meaning_preserving")]
 TESTS = [P + "test_pair_example", P + "test_covered_example"]
 
 
